@@ -387,6 +387,32 @@ def step (s : State) (toks : List String) : State × String :=
       let d := Send.dests ⟨ps⟩ me p
       (s, Util.showNatList (d.toArray.qsort (· < ·)).toList)
     | _, _, _ => (s, "bad-op")
+  -- … with failing calls: `sendx <parents> <me> <pattern> <ok|closing|nil:k,…>` (the instance is closing / the
+  -- destinations at these positions of the list are nil nodes) answers the nodes that get the message, sorted, and
+  -- the number of errors the operation returns
+  | ["sendx", par, me, pat, flt] =>
+    let parents : Option (List (Option Nat)) :=
+      (par.splitOn ",").mapM fun x => if x = "-" then some none else x.toNat?.map some
+    let pat? : Option (Send.Pattern × Bool) :=
+      if pat = "children" then some (.children, false)
+      else if pat = "childrenpar" then some (.children, true)
+      else if pat = "parent" then some (.parent, false)
+      else if pat = "bcast" then some (.bcast, false)
+      else match pat.splitOn ":" with
+        | ["to", j] => j.toNat?.map fun j => (.to j, false)
+        | ["multi", js] => (Util.natList js).map fun js => (.multi js, false)
+        | _ => none
+    let flt? : Option Send.Fault :=
+      if flt = "ok" then some {}
+      else if flt = "closing" then some { closing := true }
+      else match flt.splitOn ":" with
+        | ["nil", ks] => (Util.natList ks).map fun ks => { bad := ks }
+        | _ => none
+    match parents, me.toNat?, pat?, flt? with
+    | some ps, some me, some (p, b), some f =>
+      let r := Send.sendx ⟨ps⟩ me p b f
+      (s, Util.showNatList (r.1.toArray.qsort (· < ·)).toList ++ s!" errs={r.2}")
+    | _, _, _, _ => (s, "bad-op")
   | _ => (s, "bad-op")
 
 end Drv
